@@ -57,6 +57,10 @@ def register(T, repo):
     T.obj_methods[('re.Match', 'start')] = m_start
     T.obj_methods[('re.Match', 'end')] = m_end
 
+    def m_span(ex, st, fi, o, args, kw, line):
+        yield st, (o.fields['_start'], o.fields['_end'])
+    T.obj_methods[('re.Match', 'span')] = m_span
+
     # -------------------------------------------------------- get_txt_pos
     c = T.add(FContract(
         U + 'get_txt_pos',
